@@ -2562,12 +2562,14 @@ void Analyser::AnalyserImpl::scaleEquationAst(const AnalyserEquationAstPtr &ast)
 
             if (!areNearlyEqual(scalingFactor, 1.0)) {
                 // We need to scale using the inverse of the scaling factor, but
-                // how we do it depends on whether the rate is to be computed or
-                // used.
+                // how we do it depends on whether the rate is to be computed
+                // (it is then the LHS of the equation) or used (anywhere else,
+                // including as the whole RHS of an equation, e.g. r = dx/dt).
 
                 auto astGrandparent = astParent->parent();
 
-                if (astGrandparent->mPimpl->mType == AnalyserEquationAst::Type::EQUALITY) {
+                if ((astGrandparent->mPimpl->mType == AnalyserEquationAst::Type::EQUALITY)
+                    && (astGrandparent->mPimpl->mOwnedLeftChild == astParent)) {
                     scaleAst(astGrandparent->mPimpl->mOwnedRightChild, astGrandparent, scalingFactor);
                 } else {
                     scaleAst(astParent, astGrandparent, 1.0 / scalingFactor);
